@@ -17,6 +17,7 @@
 
 import jax
 import jax.core
+import jax.extend.core
 import treescope  # type: ignore[import-not-found,import-untyped]
 
 from flax.nnx import reprlib
@@ -26,6 +27,9 @@ def current_jax_trace():
   """Returns the Jax tracing state."""
   if jax.__version_info__ <= (0, 4, 33):
     return jax.core.thread_local_state.trace_state.trace_stack.dynamic
+  if hasattr(jax.extend.core, 'get_opaque_trace_state'):
+    # jax.core.get_opaque_trace_state was removed in JAX 0.11
+    return jax.extend.core.get_opaque_trace_state(convention="nnx")
   return jax.core.get_opaque_trace_state(convention="nnx")
 
 
